@@ -12,7 +12,9 @@ follow the decision logic of the code:
 (b) `FeNames`: the registration pass reduced to names against the pairwise no-clash rule (`NoClash`).
 
 Full-strength statements that are false of today's code are refuted on a concrete witness; the `_partial` versions
-exclude exactly the witnessed holes by a named, decidable hypothesis.
+exclude exactly the witnessed holes by a named, decidable hypothesis.  Holes that were repaired in the code since the
+first version of these models (a literal as `List` / `Map` element type, a non-integral `List` length) are no longer
+excluded; the new behaviour is pinned by `list_literal_refused`, `list_float_length_refused`.
 -/
 namespace StoneVerif.C01
 open StoneVerif.FeParams StoneVerif.FeNames
@@ -24,30 +26,53 @@ theorem legal_args_accepted (rx : String → Bool) (hrx : rx "" = true) (k : TyK
     (kw : List (String × Arg)) (h : legalArgs rx k pos kw = true) : ∃ t, instantiate rx k pos kw = .ok t :=
   FeParams.legal_accepted rx hrx k pos kw h
 
-/-- Acceptance = legality, outside the four holes (`hitsHole`: element argument that is not a type, non-integral list
-length, falsy non-string pattern, bound beyond the far end of the width). Missing for full strength: those holes. -/
+/-- Acceptance = legality, outside the two remaining holes (`hitsHole`: a falsy non-string `String` pattern, a
+numeric bound beyond the far end of the width). Missing for full strength: those holes. -/
 theorem instantiate_ok_iff_legal_partial (rx : String → Bool) (hrx : rx "" = true) (k : TyKind) (pos : List Arg)
-    (kw : List (String × Arg)) (hh : hitsHole k pos kw = false) :
+    (kw : List (String × Arg)) (hh : hitsHole k kw = false) :
     (∃ t, instantiate rx k pos kw = .ok t) ↔ legalArgs rx k pos kw = true :=
   FeParams.instantiate_ok_iff_legal_partial rx hrx k pos kw hh
 
 /-- The same for a whole reference `K(args)` / `K(args)?` to a built-in type (`Void?` is refused). -/
 theorem builtin_ref_ok_iff_legal_partial (rx : String → Bool) (hrx : rx "" = true) (k : TyKind) (pos : List Arg)
-    (kw : List (String × Arg)) (nullable : Bool) (hh : hitsHole k pos kw = false) :
+    (kw : List (String × Arg)) (nullable : Bool) (hh : hitsHole k kw = false) :
     (∃ r, resolveBuiltin rx k pos kw nullable = .ok r) ↔ legalRef rx k pos kw nullable = true :=
   FeParams.resolveBuiltin_ok_iff_legalRef_partial rx hrx k pos kw nullable hh
 
-/-- The full-strength equivalence FAILS on today's code. -/
+/-- Full strength for the composite and parameterless types: for `List`, `Map`, `Timestamp`, `Bytes`, `Boolean`,
+`Void` acceptance = legality for every argument list (no hole is left there). -/
+theorem container_ok_iff_legal (rx : String → Bool) (hrx : rx "" = true) (k : TyKind) (pos : List Arg)
+    (kw : List (String × Arg)) (hk : k = .list ∨ k = .map ∨ k = .timestamp ∨ k = .bytes ∨ k = .boolean ∨ k = .void) :
+    (∃ t, instantiate rx k pos kw = .ok t) ↔ legalArgs rx k pos kw = true :=
+  FeParams.instantiate_ok_iff_legal_of_kind rx hrx k pos kw hk
+
+/-- The full-strength equivalence over all thirteen types FAILS on today's code. -/
 theorem instantiate_ok_iff_legal_fails :
     ¬ ∀ (rx : String → Bool) (k : TyKind) (pos : List Arg) (kw : List (String × Arg)),
       ((∃ t, instantiate rx k pos kw = .ok t) ↔ legalArgs rx k pos kw = true) :=
   FeParams.instantiate_ok_iff_legal_fails
 
-/-- `List(3)`: a literal where a type is required is accepted. -/
-theorem hole_list_literal :
-    instantiate (fun _ => true) .list [.int 3] [] = .ok (.list (.int 3) none none) ∧
-      legalArgs (fun _ => true) .list [.int 3] [] = false :=
-  FeParams.hole_list_literal
+/-- `String(pattern=0)`: a non-string pattern is accepted when it is falsy. -/
+theorem hole_string_falsy_pattern :
+    instantiate (fun _ => true) .string [] [("pattern", .int 0)] = .ok (.string none none (some (.int 0))) ∧
+      legalArgs (fun _ => true) .string [] [("pattern", .int 0)] = false :=
+  FeParams.hole_string_falsy_pattern
+
+/-- `Int32(min_value=2147483648)`: a lower bound above the maximum of the width is accepted. -/
+theorem hole_int_min_above_maximum :
+    instantiate (fun _ => true) .int32 [] [("min_value", .int 2147483648)] = .ok (.int .int32 (some 2147483648) none) ∧
+      legalArgs (fun _ => true) .int32 [] [("min_value", .int 2147483648)] = false :=
+  FeParams.hole_int_min_above_maximum
+
+/-- Repaired: `List(3)` (a literal where a type is required) is a spec error. -/
+theorem list_literal_refused :
+    instantiate (fun _ => true) .list [.int 3] [] = .error (.specerr .badArgument) :=
+  FeParams.list_literal_refused
+
+/-- Repaired: `List(String, min_items=1.5)` is a spec error. -/
+theorem list_float_length_refused :
+    instantiate (fun _ => true) .list [.ty true] [("min_items", .float (.fin 3 2))] = .error (.specerr .badArgument) :=
+  FeParams.list_float_length_refused
 
 /-- the signatures the model reads (`Tables.feInitSigs`, extracted from stone/ir/data_types.py) are the ones the
 specification table assumes: required = non-defaulted, optional = defaulted parameters -/
@@ -56,7 +81,7 @@ theorem signature_tables (k : TyKind) :
       (optional k).map (·.1) = (initSig k).1.drop ((initSig k).1.length - (initSig k).2) :=
   ⟨FeParams.required_matches_signature k, FeParams.optional_matches_signature k⟩
 
-example : hitsHole .string [] [("min_length", .int 1), ("max_length", .int 5)] = false ∧
+example : hitsHole .string [("min_length", .int 1), ("max_length", .int 5)] = false ∧
     legalArgs (fun _ => true) .string [] [("min_length", .int 1), ("max_length", .int 5)] = true := by decide
 
 /-! ## (b) names -/
